@@ -247,6 +247,9 @@ impl StreamsState {
         self.pending.clear();
         self.send_streams = 0;
         self.data_sent = 0;
+        // The connection-level limit remembered from the previous session is void; the limit from
+        // the new handshake is applied by the following `set_params`
+        self.max_data = 0;
         // The streams that carried the unacknowledged data are gone, and so are the packets
         self.unacked_data = 0;
         self.connection_blocked.clear();
